@@ -69,10 +69,11 @@ def r_C10e(root):
         ob("C10", "C10.e", P, q, "search helper yields None for a failed candidate (no raise)", not raises)
         for r in raises:
             out.append(Finding("C10", "C10.e", P, q, " ".join(ast.unparse(r).split())[:100], "a candidate that does not fit raises instead of yielding None: the outward search stops at the first enclosing scope that has an object of that name but of another kind, and the genuine target further out is never reached", witness="package x nearer to the reference, class x further out, reference to class x"))
-    fo = find(t, "FQN.__call__._find_obj_fqn.find_obj"); inst += 1
+    fo = find_i(root, P, "FQN.__call__._find_obj_fqn.find_obj"); inst += 1
     prefixes = []
     for c in calls(fo):
         if callee_name(c) == "startswith" and c.args and isinstance(c.args[0], ast.Constant): prefixes.append(c.args[0].value)
+    if not prefixes: raise AnalysisError("FQN.find_obj: name filter of the candidate attributes not found")
     bad = [p for p in prefixes if p not in ("__", "_tx_")]
     ob("C10", "C10.e", P, "FQN.find_obj", "name filters of the candidate attributes: %s" % prefixes, not bad)
     for p in bad:
